@@ -21,7 +21,13 @@ REFUSED_LATE = {
              (T(["C", "B", "+", "r", "-", "0", "*"]), "r")],
     "gfa2": [(T(["E", "*", "c+", "o1-", "0", "1", "0", "1", "*"]), "o1"),
              (T(["G", "*", "c-", "u1+", "1", "*"]), "u1"),
-             (T(["E", "*", "b-", "g1+", "0", "1", "0", "1", "*"]), "g1")],
+             (T(["E", "*", "b-", "g1+", "0", "1", "0", "1", "*"]), "g1"),
+             # further lines of a multi-line group: the first adds a tag, the
+             # second contradicts it and is refused after its items resolved
+             (T(["U", "u2", "c", "xx:i:1"]), "u2"),
+             (T(["U", "u2", "b", "xx:i:2"]), "u2"),
+             (T(["O", "o1", "c+", "xx:i:1"]), "o1"),
+             (T(["O", "o1", "c-", "xx:i:2"]), "o1")],
 }
 
 
@@ -69,9 +75,9 @@ class S(explore.Spec):
 S(name="c02.g1", universe=universe.G1, version="gfa1", rename_targets=("Z", "B"))
 S(name="c02.g2", universe=universe.G2, version="gfa2", rename_targets=("z", "b"))
 S(name="c02.g1core", universe=universe.G1_CORE, version="gfa1",
-  rename_targets=("Z",))
+  rename_targets=("Z",), name_unnamed=("n1",), unname_ops=True)
 S(name="c02.g2core", universe=universe.G2_CORE, version="gfa2",
-  rename_targets=("z",))
+  rename_targets=("z",), name_unnamed=("n1",))
 S(name="c02.g1v3", universe=universe.G1_CORE, version="gfa1", vlevel=3,
   rename_targets=("Z",))
 
